@@ -765,6 +765,14 @@ class Fxp():
         else:
             val = np.array(val)
 
+        # narrow numpy types are widened: values are scaled and transformed as 64 bits integers or double precision floats
+        if val.dtype.kind in 'iu' and val.dtype.itemsize < 8:
+            val = val.astype(np.int64)
+        elif val.dtype.kind == 'f' and val.dtype.itemsize < 8:
+            val = val.astype(np.float64)
+        elif val.dtype.kind == 'c' and val.dtype.itemsize < 16:
+            val = val.astype(np.complex128)
+
         if vdtype is None:
             vdtype = val.dtype
         
@@ -783,7 +791,7 @@ class Fxp():
                 self.scaled = True # update scaled flag
 
                 # update vdtype due scaling tranformation
-                if vdtype == int and (isinstance(self.bias, float) or self.scale != 1):
+                if vdtype == int and (isinstance(self.bias, (float, np.floating)) or self.scale != 1):
                     vdtype = float
             
             # check if it is a numpy array
